@@ -1387,6 +1387,8 @@ class Console:
         color_system = self._color_system
         legacy_windows = self.legacy_windows
         if self.record:
+            # the pager hands over a generator: it must not be used up by recording
+            buffer = list(buffer)
             with self._record_buffer_lock:
                 self._record_buffer.extend(buffer)
         not_terminal = not self.is_terminal
